@@ -428,9 +428,8 @@ func (w *world) oracleC08() {
 			}
 		}
 		// asynchronous instruments: exactly the observed sets, delta = observed - previously observed
-		if w.limit == 0 {
-			w.checkAsync(prop, jd, jc, dColls)
-		}
+		// (under a cardinality limit: after redirecting all but the first limit-1 observed sets to the overflow set)
+		w.checkAsync(jd, jc, dColls)
 		w.checkGauge(prop, jd, dColls)
 	}
 	// interval bookkeeping: delta intervals adjacent and non-overlapping, cumulative start fixed
@@ -503,32 +502,100 @@ func (w *world) concurrentD(d []*collection, i int) bool {
 	return false
 }
 
-func (w *world) checkAsync(prop string, jd, jc *collection, dColls []*collection) {
+// abandonedBefore reports whether a collection of c's reader was abandoned with an error after callbacks
+// of instrument idx had already observed values, with fewer than depth successful collections of that
+// reader certainly between it and c. The observations of an abandoned collection stay in the precomputed
+// aggregator (known finding C08-K1): they distort the next successful collection, and through the
+// remembered last value of a delta sum the one after it, so depth is 1 for cumulative and 2 for delta.
+func (w *world) abandonedBefore(c *collection, idx, depth int) bool {
+	for _, a := range w.colls {
+		if a == c || a.reader != c.reader || a.err == nil || a.ret == 0 || a.inv > c.inv || len(a.observed[idx]) == 0 {
+			continue
+		}
+		between := 0
+		for _, o := range w.colls {
+			if o != c && o.reader == c.reader && o.err == nil && o.ret != 0 && o.inv > a.ret && o.ret < c.inv {
+				between++
+			}
+		}
+		if between < depth {
+			return true
+		}
+	}
+	return false
+}
+
+// limited maps what callbacks observed in one collection to what a stream under the cardinality limit
+// holds: the first limit-1 observed sets keep their identity, all later ones are aggregated under the
+// overflow set (summed; for a gauge the last one wins).
+func (w *world) limited(in *inst, obs map[string]int64) map[string]int64 {
+	if w.limit == 0 || obs == nil {
+		return obs
+	}
+	out := map[string]int64{}
+	n := 0
+	for _, s := range asyncSets {
+		k := s.key(nil)
+		v, ok := obs[k]
+		if !ok {
+			continue
+		}
+		switch {
+		case n < w.limit-1:
+			out[k] = v
+			n++
+		case in.kind == kObsGauge:
+			out[overflowKey] = v
+		default:
+			out[overflowKey] += v
+		}
+	}
+	return out
+}
+
+func (w *world) checkAsync(jd, jc *collection, dColls []*collection) {
+	props := []string{"C08"}
+	lim := ""
+	if w.limit > 0 {
+		props = append(props, "C12")
+		lim = "/limit"
+	}
 	for _, in := range w.insts {
 		if !in.kind.isAsync() {
 			continue
 		}
 		name := in.name
+		// what an abandoned collection leaves behind is a C08 matter (known finding C08-K1), not one of limits
+		ctxC, ctxD := lim, lim
+		propsC, propsD := props, props
+		if w.abandonedBefore(jc, in.idx, 1) {
+			ctxC += "/after-abandoned-collection"
+			propsC = props[:1]
+		}
+		if w.abandonedBefore(jd, in.idx, 2) {
+			ctxD += "/after-abandoned-collection"
+			propsD = props[:1]
+		}
 		// cumulative reader: exactly what this collection's callbacks observed
-		obsC := jc.observed[in.idx]
+		obsC := w.limited(in, jc.observed[in.idx])
 		if !sameKeys(jc.data[name], obsC) {
-			w.r.Violate(prop, "async-sets-mismatch", "async-sets-mismatch/cumulative", "%s at joint point %d: cumulative reader reports sets %v, callbacks observed %v", name, jc.joint, keysOf(jc.data[name]), keysOfI(obsC))
+			w.viol(propsC, "async-sets-mismatch", "async-sets-mismatch/cumulative"+ctxC, "%s at joint point %d: cumulative reader reports sets %v, callbacks observed %v (limit %d)", name, jc.joint, keysOf(jc.data[name]), keysOfI(jc.observed[in.idx]), w.limit)
 		} else {
 			for k, v := range obsC {
 				if jc.data[name][k].ival != v {
-					w.r.Violate(prop, "async-value-mismatch", "async-value-mismatch/cumulative", "%s set [%s] at joint point %d: cumulative reader reports %d, callback observed %d", name, k, jc.joint, jc.data[name][k].ival, v)
+					w.viol(propsC, "async-value-mismatch", "async-value-mismatch/cumulative"+ctxC, "%s set [%s] at joint point %d: cumulative reader reports %d, callback observed %d", name, k, jc.joint, jc.data[name][k].ival, v)
 				}
 			}
 		}
-		obsD := jd.observed[in.idx]
+		obsD := w.limited(in, jd.observed[in.idx])
 		if !sameKeys(jd.data[name], obsD) {
-			w.r.Violate(prop, "async-sets-mismatch", "async-sets-mismatch/delta", "%s at joint point %d: delta reader reports sets %v, callbacks observed %v", name, jd.joint, keysOf(jd.data[name]), keysOfI(obsD))
+			w.viol(propsD, "async-sets-mismatch", "async-sets-mismatch/delta"+ctxD, "%s at joint point %d: delta reader reports sets %v, callbacks observed %v (limit %d)", name, jd.joint, keysOf(jd.data[name]), keysOfI(jd.observed[in.idx]), w.limit)
 			continue
 		}
 		if in.kind == kObsGauge {
 			for k, v := range obsD {
 				if jd.data[name][k].ival != v {
-					w.r.Violate(prop, "async-value-mismatch", "async-value-mismatch/gauge", "%s set [%s] at joint point %d: delta reader reports %d, callback observed %d", name, k, jd.joint, jd.data[name][k].ival, v)
+					w.viol(propsD, "async-value-mismatch", "async-value-mismatch/gauge"+ctxD, "%s set [%s] at joint point %d: delta reader reports %d, callback observed %d", name, k, jd.joint, jd.data[name][k].ival, v)
 				}
 			}
 			continue
@@ -553,12 +620,12 @@ func (w *world) checkAsync(prop string, jd, jc *collection, dColls []*collection
 		}
 		var prevObs map[string]int64
 		if prev != nil {
-			prevObs = prev.observed[in.idx]
+			prevObs = w.limited(in, prev.observed[in.idx])
 		}
 		for k, v := range obsD {
 			want := v - prevObs[k]
 			if got := jd.data[name][k].ival; got != want {
-				w.r.Violate(prop, "async-value-mismatch", "async-value-mismatch/delta", "%s set [%s] at joint point %d: delta reader reports %d, observed %d minus previously observed %d = %d", name, k, jd.joint, got, v, prevObs[k], want)
+				w.viol(propsD, "async-value-mismatch", "async-value-mismatch/delta"+ctxD, "%s set [%s] at joint point %d: delta reader reports %d, observed %d minus previously observed %d = %d", name, k, jd.joint, got, v, prevObs[k], want)
 			}
 		}
 	}
@@ -832,3 +899,4 @@ func (w *world) checkExpo(prop, where, key string, cum point, deltas []point, ze
 		}
 	}
 }
+
